@@ -338,6 +338,7 @@ package otp
 //@   ensures[unsupported] algo > 2 ==> err != nil && s == "" && rngpos == rngpos0
 //@   ensures[csprng] algo <= 2 && err == nil ==> s == b32nopad(sub(rng, rngpos0, rngpos0 + hlen(algo))) && rngpos == rngpos0 + hlen(algo)
 //@   ensures[nosecret] err != nil ==> s == ""
+//@   ensures[total] algo <= 2 ==> err == nil
 
 // ---------------------------------------------------------------------------
 // suites: termination of the token loop (functional contracts of the parser: see DESIGN C15)
